@@ -130,6 +130,9 @@ def runValid (c : CaseBlock) : IO Unit := do
         sameString := field c "rs" == some ["same"],
         sameName := field c "nm" == some ["same"],
         sameMachine := field c "eq" == some ["same"] }
+      -- "... and drives a framework identically" (harness: original and parsed machine over a scripted history)
+      if implValid && (field c "dr" == some ["diff"] || field c "dr" == some ["panic"]) then
+        mons := mons ++ [s!"roundtrip: the machine parsed from its own string does not drive a framework like the original ({(field c "dr").getD []}); {m.states.length} states"]
       if implValid && !C11.monRoundTrip obs then
         let readInfo := match field c "ro" with
           | some ["ok", n, _] => s!"single read returned {n} of {mb.length} bytes"
